@@ -237,15 +237,26 @@ while True:
     if not line:
         break
     t = line.split()
-    if t[0] == "W":
-        b = bytes.fromhex(t[1]); n = os.write(fd, b); assert n == len(b)
-    elif t[0] == "A":
-        getattr(rt, t[1])(bytes.fromhex(t[2]).decode("ascii"), t[3])
-    elif t[0] == "X":
+    try:
+        if t[0] == "W":
+            b = bytes.fromhex(t[1]); n = os.write(fd, b); assert n == len(b)
+        elif t[0] == "A":
+            import warnings
+            with warnings.catch_warnings():
+                warnings.filterwarnings("error", message="resource_tracker: process died")  # -> tell the harness
+                getattr(rt, t[1])(bytes.fromhex(t[2]).decode("ascii"), t[3])
+    except (OSError, UserWarning) as e:
+        sys.stdout.write("gone %s\n" % type(e).__name__); sys.stdout.flush()
+        continue
+    if t[0] == "X":
         sys.stdout.write("bye\n"); sys.stdout.flush()
         sys.exit(0)
     sys.stdout.write("ok\n"); sys.stdout.flush()
 """
+
+
+class TrackerGone(Exception):
+    """A write to the tracker's pipe failed: nobody reads it any more."""
 
 
 class Client:
@@ -283,6 +294,8 @@ class Client:
     def cmd(self, text):
         self.p.stdin.write(text.encode() + b"\n")
         ans = self.readline()
+        if ans.startswith("gone"):
+            raise TrackerGone(ans)
         if ans != "ok":
             raise core.InfraError(f"client answered {ans!r}")
 
@@ -392,7 +405,10 @@ class World:
     def write(self, who, data, reqs):
         """who: client index or 'h' (the harness's own copy of the fd)."""
         if who == "h":
-            n = os.write(self.w, data)
+            try:
+                n = os.write(self.w, data)
+            except BrokenPipeError:
+                raise TrackerGone("EPIPE") from None
             if n != len(data):
                 raise core.InfraError("short write")
         else:
@@ -453,6 +469,8 @@ class World:
                 if not self.event(ev):
                     return
             self.ending()
+        except TrackerGone as e:
+            self.problems.append(("tracker:died", f"a client's write to the pipe failed ({e}): the tracker stopped reading before EOF"))
         finally:
             self.teardown()
 
@@ -1135,13 +1153,15 @@ def sync():
     rt.register(s, "file"); rt.maybe_unlink(s, "file")
     t0 = time.time()
     while os.path.exists(s):
-        if time.time() - t0 > 60: return False
+        if time.time() - t0 > 20: return False
         time.sleep(0.002)
     return True
 def state(tag):
     ok = sync()
     print(json.dumps(dict(tag=tag, synced=ok, folder=os.path.exists(folder), files=[os.path.exists(f) for f in files],
                           pid=rt._resource_tracker._pid, folder_name=folder)), flush=True)
+    if not ok:
+        os._exit(3)
 state("registered")
 if variant == "clean":
     m._clean_temporary_resources(context_id="ctx", force=False, allow_non_empty=False)   # parent's share released
